@@ -13,6 +13,9 @@ directly on the implementation.
 """
 import itertools, json
 from .common import *
+from translator import costspec2coq
+
+GEN_V = os.path.join(COQ, 'Gen', 'CostSpecGen.v')
 
 TYPES = ['Conv1d', 'Conv2d', 'Linear']
 
@@ -232,9 +235,28 @@ def run_sequence(cs, nn, pt, c, cons_by_type, specs_by_type):
     return out
 
 
+def regenerate(ctx):
+    """translate CostSpec.__setitem__ / __getitem__ of the tree under test into Gen/CostSpecGen.v (written only when it
+    changed).  -> None, or the reason why the translator refused the source (the file then does not compile on purpose,
+    so that no stale generated model can be mistaken for the current code)"""
+    try:
+        text, rej = costspec2coq.translate_repo(REPO), None
+    except (costspec2coq.Reject, SyntaxError, OSError) as e:
+        rej = '%s: %s' % (type(e).__name__, e)
+        text = ('(* translator/costspec2coq.py REFUSED plinio/cost/cost_spec.py of the tree under test:\n   %s\n   no model of the current code exists; this file fails on purpose. *)\n'
+                'Definition translator_rejected : True := 0.\n' % rej.replace('*)', '* )').replace('(*', '( *'))
+    write_if_changed(GEN_V, text)
+    return rej
+
+
 def run(ctx):
     torch, nn, cs, pt = _env()
+    gen_rejected = regenerate(ctx)
+    if gen_rejected:
+        ctx.notes.append('generated model: the translator refused the source: ' + gen_rejected)
     built = ctx.build()
+    ctx.extra['generated_model'] = {'file': 'coq/Gen/CostSpecGen.v', 'translator': 'translator/costspec2coq.py', 'source': 'plinio/cost/cost_spec.py',
+                                    'status': 'refused: ' + gen_rejected if gen_rejected else 'regenerated; equal to the hand model by C15_generated_setitem_is_model / C15_generated_getitem_is_model' if built else 'regenerated; obligations do not check'}
     ctx.rule = ('exhaustive: every ordered selection (65) of the 4 patterns {unconstrained, c0, c1, c2} of a layer type, interleaved with '
                 'other-type registrations x 8 layer specs realising each satisfaction subset x 2 defaults x 3 types; plus built-in specs x '
                 'layer catalogue; plus seeded registration lists with duplicates (length 0..8).  non-trivial = at least one registration for '
@@ -262,6 +284,13 @@ def run(ctx):
                 ctx.corr += 1
                 if o != m:
                     mism.append((c, o, m))
+            # the GENERATED model (source of __setitem__ / __getitem__ translated on this run) evaluated on the same lists
+            gexprs = [e.replace('run_lookup ', 'run_lookup_gen ', 1) for e in exprs]
+            gmodel = ctx.coq_eval_sharded('gcases', ['Plinio.Model.CostSpec', 'Plinio.Gen.CostSpecGen'], '', gexprs, shard=600)
+            for c, o, m in zip(cases, impl, gmodel):
+                ctx.corr += 1
+                if o != m:
+                    mism.append((dict(c, model='generated'), o, m))
         except RuntimeError as e:
             model_ok = False
             ctx.notes.append('model evaluation failed: ' + str(e)[-500:])
@@ -442,9 +471,13 @@ def run(ctx):
 
     # ---- broken proof / correspondence without a failing input
     if not ctx.violations:   # a printed KNOWN-FINDING must not hide a broken proof / model / correspondence
-        if not built:
+        if not built and gen_rejected:
+            ctx.violation('translator-rejected', {'translator': 'translator/costspec2coq.py', 'source': 'plinio/cost/cost_spec.py', 'reason': gen_rejected,
+                                                  'theorems': [o[0] for o in ctx.obligations if not o[1]]},
+                          'the source of CostSpec is outside the subset the translator accepts (%s): no generated model, the C15_generated_* theorems are not established' % gen_rejected[:300], no_input=True)
+        elif not built:
             ctx.violation('proof-broken', {'theorems': [o[0] for o in ctx.obligations if not o[1]], 'log': getattr(ctx, 'broken_log', '')[-3000:]},
-                          'Props/C15.v no longer checks', no_input=True)
+                          'Props/C15.v no longer checks (the model generated from the current source of CostSpec may no longer equal the hand-written one: Proofs/CostSpecGen.v)', no_input=True)
         elif not model_ok:
             ctx.violation('model-eval-broken', {'notes': ctx.notes}, 'the model could not be evaluated', no_input=True)
         elif builtin_unreadable:
